@@ -1178,6 +1178,7 @@ func runC09(c *vh.Ctx) {
 	c09ErrorOracle(c)
 	c09PrintOracle(c)
 	c09PrintPaths(c)
+	c09Repeat(c)
 
 	// -- correspondence with the Lean model
 	if c.HasLean() {
